@@ -201,7 +201,10 @@ def defined_macros(h, cflags):
     for line in so.splitlines():
         mo = re.match(r'#define ([CLHE]_\w+)(\(.*?\))?\s*(.*)$', line)
         if mo and mo.group(3).strip():
-            defined[mo.group(1)] = mo.group(3)
+            name = mo.group(1)
+            if name[0] in 'LH' and not re.match(r'^[LH]_\w+_\d+$', name):
+                continue  # libc macros such as L_tmpnam, L_ctermid are not loop anchors
+            defined[name] = mo.group(3)
     return defined
 
 
